@@ -1134,26 +1134,64 @@ class C22(Check):
                        "-timeout=60", "-rss_limit_mb=4096", "-max_len=16384", f"-artifact_prefix={adir}/",
                        "-print_final_stats=1", cdir]
                 attempt += 1
-                try:
-                    p = subprocess.run(cmd, cwd=base, env=env, stdout=subprocess.DEVNULL, stderr=subprocess.PIPE, text=True,
-                                       timeout=3600 if tier == "quick" else 10 * 3600)
-                except subprocess.TimeoutExpired:
-                    out["inconclusive"] = f"libFuzzer campaign {name} exceeded its wall budget"
-                    break
+                errpath = os.path.join(base, f"stderr-{attempt}.log")
+                t_start = time.time()
+                stuck = False
+                with open(errpath, "w") as errf:
+                    proc = subprocess.Popen(cmd, cwd=base, env=env, stdout=subprocess.DEVNULL, stderr=errf)
+                    cur = os.path.join(base, f"verif-fuzz-{proc.pid}", "cur.raw")
+                    wall = 3600 if tier == "quick" else 10 * 3600
+                    while proc.poll() is None:
+                        time.sleep(2)
+                        now = time.time()
+                        try:
+                            age = now - os.path.getmtime(cur)
+                        except OSError:
+                            age = now - t_start
+                        # libFuzzer's own -timeout can deadlock in its signal handler (malloc lock):
+                        # an execution that has not finished after 150 s is declared stuck from outside.
+                        if age > 150 or now - t_start > wall:
+                            stuck = True
+                            proc.kill()
+                            proc.wait()
+                            break
+                perr = open(errpath, errors="replace").read()
+                if stuck:
+                    try:
+                        data = open(cur, "rb").read()
+                        done = int(open(os.path.join(os.path.dirname(cur), "count")).read() or "0")
+                    except (OSError, ValueError):
+                        out["inconclusive"] = f"libFuzzer campaign {name} got stuck and left no current unit"
+                        break
+                    out["execs"] += done
+                    remaining -= max(done, 1)
+                    shutil.rmtree(os.path.dirname(cur), ignore_errors=True)
+                    rc, arts_data, where = 70, data, None
+                else:
+                    rc, arts_data, where = proc.returncode, None, None
+
+                class _P:  # noqa: N801 - tiny adapter so the code below reads like the subprocess.run version
+                    returncode = rc
+                    stderr = perr
+                p = _P
                 m = re.search(r"stat::number_of_executed_units:\s*(\d+)", p.stderr)
                 execs = int(m.group(1)) if m else 0
-                out["execs"] += execs
-                remaining -= max(execs, 1)
+                if not stuck:
+                    out["execs"] += execs
+                    remaining -= max(execs, 1)
                 cov = re.findall(r"cov: (\d+)", p.stderr)
                 out["cov"] = max(out["cov"], int(cov[-1]) if cov else 0)
                 if p.returncode == 0:
                     break
                 arts = sorted(os.listdir(adir))
                 where = re.search(r"VERIF-PANIC target=\S+ at=(.*)", p.stderr)
-                if not arts:
+                if stuck:
+                    data = arts_data
+                elif not arts:
                     out["inconclusive"] = f"libFuzzer campaign {name} exited {p.returncode} without an artifact: {p.stderr[-400:]}"
                     break
-                data = open(os.path.join(adir, arts[0]), "rb").read()
+                else:
+                    data = open(os.path.join(adir, arts[0]), "rb").read()
                 rep = self.replay_artifact(target, data, base)
                 if rep is None:
                     continue
